@@ -46,7 +46,7 @@ type Obligation struct {
 // by all paths (append-only).
 type Ctx struct {
 	aliases  map[types.Object][]types.Object // local slice variables related by a re-slice (x = y[a:b])
-	modsCall *ast.CallExpr // call site whose contract modifies are being collected (loop mod sets)
+	modsCall *ast.CallExpr                   // call site whose contract modifies are being collected (loop mod sets)
 	modsInfo *types.Info
 	eng      *Engine
 	unit     *FuncUnit
